@@ -367,12 +367,23 @@ def _extra_clauses(case, m, pop, n_ids, theta, x, cov, special, want, kw):
         with case.clause('array_forms'):
             from vf.core import array_forms
             for (lt, a_th) in array_forms(theta):
-                for (lx, a_x) in array_forms(x):
+                x_f = x
+                if cov is not None and any(special):
+                    # point-mass values under a covariate shift are the sum theta + beta * chi to the last bit; a strided
+                    # parameter array is summed in another order inside numpy, so the values are taken from chi's own
+                    # transform of THIS array form (section 9.5; found by the thorough tier at VERIF_SEED 4)
+                    xc_ = np.asarray(m.compute_individual_parameters(a_th, x.copy(), **kw), dtype=float)
+                    x_f = x.copy()
+                    for d_, sp_ in enumerate(special):
+                        if sp_:
+                            x_f[:, d_] = xc_[:, d_]
+                for (lx, a_x) in array_forms(x_f):
                     v = m.compute_log_likelihood(a_th, a_x, **kw)
                     case.close(v, want, rtol=1e-8, what='log-likelihood for parameters given as %s and values as %s' % (lt, lx))
                     sc_a = m.compute_sensitivities(a_th, a_x, reduce=True, **kw)
                     sc_b = m.compute_sensitivities(theta.copy(), x.copy(), reduce=True, **kw)
                     case.close(np.asarray(sc_a[1], dtype=float), np.asarray(sc_b[1], dtype=float), rtol=1e-12,
+                               atol=1e-13 * float(np.max(np.abs(np.asarray(sc_b[1], dtype=float)))) if np.size(sc_b[1]) else 0.0,
                                what='reduced sensitivities for parameters given as %s and values as %s' % (lt, lx))
     # ---- whole numbers typed as integers ---------------------------------------------------
     if cov is None and s['layout'] == 'flat':
